@@ -97,6 +97,10 @@ class SequenceDataSource(types.Recoverable, Iterable[_T]):
       result = self.from_state(shard_state.parent)
     else:
       result = SequenceDataSource(self.data, ignore_error=self.ignore_error)
+      if shard_state == ShardConfig():
+        # The state of the unsharded source itself: sharding it once more would
+        # nest every restored state one level deeper than the recorded one.
+        return result
     return result.shard(
         shard_state.shard_index, shard_state.num_shards, shard_state.start_index
     )
